@@ -71,6 +71,7 @@ impl<'a> StateMachine<'a> {
     //@ fn src/handlers/diff_header_diff.rs StateMachine::test_diff_header_diff_line
     //@| ensures r == is_prefix("diff "@, self.line@),
     //@ fn src/handlers/diff_header_diff.rs StateMachine::handle_diff_header_diff_line spec=diff_header.handle_diff_line
+    //@before <<<self.handle_pending_line_with_diff_name()?;>>>| assert(/* @C10,C14:hdl.pending.header.is.written.with.the.previous.sections.data */ self.diff_line == old(self).diff_line && self.minus_file == old(self).minus_file && self.plus_file == old(self).plus_file && self.mode_info == old(self).mode_info && self.current_file_pair == old(self).current_file_pair && self.handled_diff_header_header_line_file_pair == old(self).handled_diff_header_header_line_file_pair);
     //@ fn src/handlers/mod.rs StateMachine::handle_additional_cases spec=diff_header.handle_additional_cases
 }
 
